@@ -34,6 +34,9 @@ type c13Entry struct {
 
 type c13Program struct {
 	PerMount [][]c13Entry // entries created in each tmpfs
+	// How the run goes: "" (runs to its end) | after-exec (synchronised after exec) | after-exec-syncfail (the callback
+	// refuses once the program has made its files) | before-exec-syncfail | cancelled (once the files are there)
+	How string
 }
 
 type c13Case struct {
@@ -68,6 +71,7 @@ func c13GenCase(rt *rapid.T) c13Case {
 			}
 			prog.PerMount = append(prog.PerMount, es)
 		}
+		prog.How = rapid.SampledFrom([]string{"", "", "", "after-exec", "after-exec-syncfail", "after-exec-syncfail", "before-exec-syncfail", "cancelled"}).Draw(rt, "how")
 		c.Programs = append(c.Programs, prog)
 	}
 	return c
@@ -147,6 +151,12 @@ func c13Script(c c13Case, pi int) *probe.Script {
 			}
 		}
 	}
+	if prog.How == "after-exec-syncfail" || prog.How == "cancelled" {
+		// tell the host that everything is in place, then stay around to be stopped
+		s.Sys(sysNr["chdir"], s.Str("/"+c.Mounts[0]))
+		s.Sys(sysNr["openat"], at, s.Str(fmt.Sprintf("zz-sentinel-%d", pi)), syscall.O_CREAT|syscall.O_WRONLY, 0o644)
+		s.Add("sleep:20000")
+	}
 	s.Add("exit:0")
 	return &s
 }
@@ -175,7 +185,33 @@ func c13Run(c c13Case, rec *vh.Recorder) error {
 		if len(s.Ops) > 4000 {
 			return vh.Infraf("script too long")
 		}
-		tr, err := runContainer(sandboxOpts{Script: s, Env: env})
+		opts := sandboxOpts{Script: s, Env: env}
+		how := c.Programs[pi].How
+		waitSentinel := func() {
+			p := fmt.Sprintf("/proc/%d/root/%s/zz-sentinel-%d", initPid, c.Mounts[0], pi)
+			for k := 0; k < 500; k++ {
+				if _, err := os.Lstat(p); err == nil {
+					return
+				}
+				time.Sleep(10 * time.Millisecond)
+			}
+		}
+		var cancel context.CancelFunc
+		switch how {
+		case "after-exec":
+			opts.SyncAfterExec, opts.SyncFunc = true, func(int) error { return nil }
+		case "after-exec-syncfail":
+			opts.SyncAfterExec, opts.SyncFunc = true, func(int) error { waitSentinel(); return errors.New("refused by the caller") }
+		case "before-exec-syncfail":
+			opts.SyncFunc = func(int) error { return errors.New("refused by the caller") }
+		case "cancelled":
+			opts.Ctx, cancel = context.WithCancel(context.Background())
+			go func() { waitSentinel(); cancel() }()
+		}
+		tr, err := runContainer(opts)
+		if cancel != nil {
+			cancel()
+		}
 		if err != nil {
 			return err
 		}
@@ -183,7 +219,9 @@ func c13Run(c c13Case, rec *vh.Recorder) error {
 			killTagged(tr.Tag)
 			return vh.Violf("C13:hung", "program %d did not finish; %s", pi, desc)
 		}
-		if tr.Result.Status != runner.StatusNormal {
+		if how == "after-exec-syncfail" || how == "before-exec-syncfail" || how == "cancelled" {
+			// the run is meant to end badly; what it left behind still has to go
+		} else if tr.Result.Status != runner.StatusNormal {
 			return vh.Infraf("tree-building program ended %v %q", tr.Result.Status, tr.Result.Error)
 		}
 		for _, v := range tr.Report.R {
@@ -257,6 +295,14 @@ func c13Run(c c13Case, rec *vh.Recorder) error {
 			}
 		}
 	}
+	for _, p := range c.Programs {
+		if p.How != "" {
+			classes = append(classes, "run="+p.How)
+		}
+		if p.How == "after-exec-syncfail" || p.How == "cancelled" {
+			nt = true
+		}
+	}
 	classes = append(classes, fmt.Sprintf("cred=%v mounts=%d", c.Cred, len(c.Mounts)))
 	if before == 0 {
 		nt = false
@@ -301,6 +347,48 @@ func (o oneByteReader) Read(p []byte) (int, error) {
 		return 0, nil
 	}
 	return o.r.Read(p[:1])
+}
+
+// dataEOFReader returns the final bytes together with io.EOF (io.Reader allows it; archive and section readers do it)
+type dataEOFReader struct {
+	b     []byte
+	chunk int
+}
+
+func (d *dataEOFReader) Read(p []byte) (int, error) {
+	if len(p) == 0 {
+		return 0, nil
+	}
+	n := len(p)
+	if d.chunk > 0 && n > d.chunk {
+		n = d.chunk
+	}
+	if n >= len(d.b) {
+		n = copy(p, d.b)
+		d.b = nil
+		return n, io.EOF
+	}
+	copy(p, d.b[:n])
+	d.b = d.b[n:]
+	return n, nil
+}
+
+// stutterReader returns (0, nil) every other call and otherwise odd-sized pieces
+type stutterReader struct {
+	r io.Reader
+	n int
+}
+
+func (s *stutterReader) Read(p []byte) (int, error) {
+	s.n++
+	if s.n%2 == 0 || len(p) == 0 {
+		return 0, nil
+	}
+	k := 1 + (s.n*7919)%8191
+	if k > len(p) {
+		k = len(p)
+	}
+	return s.r.Read(p[:k])
 }
 
 type failingReader struct {
@@ -399,9 +487,9 @@ func TestC13Memfd(t *testing.T) {
 	ce := &c09Env{}
 	defer ce.close()
 	vh.Check(t, rec, func(rt *rapid.T) c13MCase {
-		c := c13MCase{Reader: rapid.SampledFrom([]string{"bytes", "file", "pipe", "onebyte", "failing"}).Draw(rt, "reader")}
+		c := c13MCase{Reader: rapid.SampledFrom([]string{"bytes", "file", "pipe", "onebyte", "failing", "data+eof", "data+eof-chunked", "section", "stutter", "buffer", "limited-file"}).Draw(rt, "reader")}
 		c.Size = rapid.OneOf(rapid.SampledFrom([]int{0, 1, 4095, 4096, 4097, 8191, 8192, 8193, 65535, 65536, 65537}), rapid.IntRange(0, 20000), rapid.IntRange(0, 1<<20), rapid.SampledFrom([]int{4 << 20, 8<<20 + 3})).Draw(rt, "size")
-		if c.Reader == "onebyte" && c.Size > 70000 {
+		if (c.Reader == "onebyte" || c.Reader == "stutter") && c.Size > 70000 {
 			c.Size = c.Size % 70000
 		}
 		if c.Reader == "failing" {
@@ -428,6 +516,27 @@ func TestC13Memfd(t *testing.T) {
 			r = bytes.NewReader(want)
 		case "onebyte":
 			r = oneByteReader{bytes.NewReader(want)}
+		case "data+eof":
+			r = &dataEOFReader{b: want}
+		case "data+eof-chunked":
+			r = &dataEOFReader{b: want, chunk: 1 + c.Size%5000}
+		case "section":
+			r = io.NewSectionReader(bytes.NewReader(want), 0, 1<<62)
+		case "stutter":
+			r = &stutterReader{r: bytes.NewReader(want)}
+		case "buffer":
+			r = bytes.NewBuffer(append([]byte{}, want...))
+		case "limited-file":
+			f, err := os.CreateTemp(vh.Getenv("VERIF_SCRATCH", "/var/tmp"), "c13")
+			if err != nil {
+				return vh.Infraf("%v", err)
+			}
+			name := f.Name()
+			f.Write(want)
+			f.Write([]byte("trailing bytes that are not part of the content"))
+			f.Seek(0, 0)
+			cleanup = append(cleanup, func() { f.Close(); os.Remove(name) })
+			r = io.LimitReader(f, int64(len(want)))
 		case "failing":
 			r = &failingReader{r: bytes.NewReader(want), left: c.FailAt}
 		case "file":
